@@ -10,6 +10,10 @@ C32 driver.  One op per line:
   parse <hexarg>*                     -> I <list> | S <list> | D <hex> | U <list> | T <hex>   or  oob
   spec <hexarg>*                      -> same line for `Spec.gcc`, followed by ` | clean <0|1> defok <0|1>`
   defs <hex>                          -> <hex>                       (`fsSetDefines`)
+  simplify <hex>                      -> <hex>                       (`simplecpp::simplifyPath`)
+  incs <hexbase> <hexpath>*           -> <list>                      (`fsSetIncludePaths`)
+  import {<hexdir> <hexfile|!> (A <n> <hexarg>*n | C <hexcmd> | N)}*
+                                      -> rc <0|1> errs <n> { || P <hexpath> id <n> | <fs line> }*   or  oob
   normal <hexdef>*                    -> <hex> defok <0|1>           (`Spec.normal`)
 A <list> is "." when empty, else comma separated hex items.
 -/
@@ -40,6 +44,46 @@ def quoteItems : List String → Option (List (Style × Nat × Str))
       | some st, some pad, some a, some t => some ((st, pad, a) :: t)
       | _, _, _, _ => none
     | _ => none
+
+open Cppcheck.GccArgs.Import in
+def parseEntries : Nat → List String → Option (List Entry)
+  | _, [] => some []
+  | 0, _ => none
+  | fuel + 1, d :: f :: form :: r =>
+    match fromHex d with
+    | none => none
+    | some dir =>
+      let file : Option (Option Str) := if f == "!" then some none else (fromHex f).map some
+      match file with
+      | none => none
+      | some file =>
+        if form == "N" then (parseEntries fuel r).map (⟨dir, file, .neither⟩ :: ·)
+        else if form == "C" then
+          match r with
+          | c :: r' =>
+            match fromHex c, parseEntries fuel r' with
+            | some cmd, some t => some (⟨dir, file, .command cmd⟩ :: t)
+            | _, _ => none
+          | [] => none
+        else if form == "A" then
+          match r with
+          | n :: r' =>
+            match n.toNat? with
+            | some n =>
+              match hexAll (r'.take n), parseEntries fuel (r'.drop n) with
+              | some args, some t => if (r'.take n).length = n then some (⟨dir, file, .arguments args⟩ :: t) else none
+              | _, _ => none
+            | none => none
+          | [] => none
+        else none
+  | _, _ => none
+
+open Cppcheck.GccArgs.Import in
+def importStr (es : List Entry) : String :=
+  let r := importEntries es 0 []
+  if r.oob then "oob" else
+  "rc " ++ boolStr r.ok ++ " errs " ++ toString r.errors ++
+    String.join (r.files.map fun x => " || P " ++ toHex x.path ++ " id " ++ toString x.fileId ++ " | " ++ fsStr x.fs)
 
 def step (line : String) : String :=
   match fields line with
@@ -74,6 +118,18 @@ def step (line : String) : String :=
   | "defs" :: [h] =>
     match fromHex h with
     | some s => toHex (fsSetDefines s)
+    | none => "bad-op"
+  | "simplify" :: [h] =>
+    match fromHex h with
+    | some s => toHex (Import.simplifyPath s)
+    | none => "bad-op"
+  | "incs" :: b :: hs =>
+    match fromHex b, hexAll hs with
+    | some base, some l => listStr (Import.fsSetIncludePaths base l [] [])
+    | _, _ => "bad-op"
+  | "import" :: toks =>
+    match parseEntries (toks.length + 1) toks with
+    | some es => importStr es
     | none => "bad-op"
   | "normal" :: hs =>
     match hexAll hs with
